@@ -35,7 +35,7 @@ package parser
 //@ func expect
 //@   props C03 C18
 //@   nosafety
-//@   requires parser != nil
+//@   requires parser != nil && parser.Source != nil && 0 <= parser.Token.Start
 //@   assigns class:parser.Parser
 //@   ensures result0 == old(parser.Token)
 //@   ensures old(parser.Token.Kind) != kind ==> result1 != nil && parser.Token == old(parser.Token) && parser.PrevEnd == old(parser.PrevEnd)
@@ -45,7 +45,7 @@ package parser
 //@ func expectKeyWord
 //@   props C03 C18
 //@   nosafety
-//@   requires parser != nil
+//@   requires parser != nil && parser.Source != nil && 0 <= parser.Token.Start
 //@   assigns class:parser.Parser
 //@   ensures result0 == old(parser.Token)
 //@   ensures result1 == nil ==> old(parser.Token.Kind) == lexer.NAME && old(parser.Token.Value) == value
@@ -55,7 +55,7 @@ package parser
 //@ func unexpected
 //@   props C03 C18
 //@   nosafety
-//@   requires parser != nil
+//@   requires parser != nil && parser.Source != nil && 0 <= parser.Token.Start && 0 <= atToken.Start
 //@   assigns nothing
 //@   ensures result != nil
 //@   at[C18] call NewSyntaxError: assert arg1 == atToken.Start || arg1 == parser.Token.Start
